@@ -410,7 +410,7 @@ def h_fault_twin(bad: int, ev: List[int]) -> bool:
 
 def h_term(bad: int, ev: List[int]) -> bool:
     """
-    pre: _pre(bad, ev) and bad == 0 and (ev[0] == 0 or ev[0] == 1) and ev[0] == (PART // 3) % 2
+    pre: _pre(bad, ev) and bad == 0 and (ev[0] == 0 or ev[0] == 1) and ev[0] == (PART // 3) % 2 and (NPART <= 6 or ev[1] % 2 == (PART // 6) % 2)
     post: _
     """
     return _go(bad, ev, 'term', None)
@@ -418,7 +418,7 @@ def h_term(bad: int, ev: List[int]) -> bool:
 
 def h_term_twin(bad: int, ev: List[int]) -> bool:
     """
-    pre: _pre(bad, ev) and bad == 0 and (ev[0] == 0 or ev[0] == 1) and ev[0] == (PART // 3) % 2
+    pre: _pre(bad, ev) and bad == 0 and (ev[0] == 0 or ev[0] == 1) and ev[0] == (PART // 3) % 2 and (NPART <= 6 or ev[1] % 2 == (PART // 6) % 2)
     post: _
     """
     return _go(bad, ev, 'term', 'term')
